@@ -89,8 +89,44 @@ fn arg_len(rng: &mut Rng, ty: &Ty, cur: usize, over_ok: bool) -> usize {
 /// logic and arithmetic with random operands, resizes, rotations, splits …). Every step is itself an emitted,
 /// checked case, so an operation that leaves hidden state behind is reported by whichever property check
 /// happens to build its operands through it — the properties quantify over vectors "produced by any history".
+/// a vector obtained from one of the implementation's own constructors (the call is an emitted, checked case): `read` with
+/// surplus bits set in the top byte, `from_binary`/`from_hex`, `collect` under every kind of `size_hint`, a conversion from
+/// another implementation, or a `copy_range` of a longer vector
+fn constructed(rng: &mut Rng, ty: &Ty, maxlen: usize, emit: Emit) -> Option<String> {
+    let len = gen_len(rng, ty, maxlen);
+    let out = match rng.below(6) {
+        0 | 1 => {
+            let nb = (len + 7) / 8;
+            let mut bytes: Vec<u8> = (0..nb).map(|_| rng.next() as u8).collect();
+            let big = rng.chance(1, 2);
+            if nb > 0 { bytes[if big { 0 } else { nb - 1 }] |= if rng.chance(1, 2) { 0xff } else { 0x80 }; }
+            emit(line("read", &[ty.tag, &bytes_token(&bytes), &s(len), if big { "big" } else { "little" }]))
+        }
+        2 => {
+            let st: String = (0..len).map(|_| if rng.chance(1, 2) { '1' } else { '0' }).collect();
+            emit(line("from_binary", &[ty.tag, &chars_token(&st)]))
+        }
+        3 => emit(line("collect", &[ty.tag, &bits_token(&gen_bits(rng, len)), ["x", "n", "l", "f"][rng.below(4)]])),
+        4 => {
+            let st = *rng.pick(TYPES);
+            let sl = len.min(st.cap().unwrap_or(usize::MAX));
+            emit(line("convert", &[ty.tag, &gen_vec_len(rng, &st, sl)]))
+        }
+        _ => {
+            let lim = ty.cap().unwrap_or(maxlen + 130);
+            let src_len = (len + rng.below(130)).min(lim);
+            let mut bits = gen_bits(rng, src_len);
+            if rng.chance(1, 2) { for b in bits.iter_mut() { *b = true; } }
+            let src = vec_token(ty, &bits, rng.below(2), rng.chance(1, 3));
+            let start = rng.below(src_len - len.min(src_len) + 1);
+            emit(line("copy_range", &[&src, &s(start), &s(start + len.min(src_len))]))
+        }
+    };
+    out_vec(&out)
+}
+
 pub fn produced(rng: &mut Rng, ty: &Ty, maxlen: usize, emit: Emit) -> String {
-    let mut cur = gen_vec(rng, ty, maxlen);
+    let mut cur = if rng.chance(1, 3) { constructed(rng, ty, maxlen, emit).unwrap_or_else(|| gen_vec(rng, ty, maxlen)) } else { gen_vec(rng, ty, maxlen) };
     if rng.chance(1, 5) {
         // start from all ones / a run of ones reaching the top, so that a following `+ 1` wraps through every word
         let len = tok_len(&cur);
@@ -127,7 +163,13 @@ pub fn produced(rng: &mut Rng, ty: &Ty, maxlen: usize, emit: Emit) -> String {
             }
             9 => line("truncate", &[&cur, &s(rng.below(len + 1))]),
             10 if len > 0 => line("rotl", &[&cur, &s(rng.below(len + 1))]),
-            11 => line("split_off", &[&cur, &s(rng.below(len + 1))]),
+            11 if rng.chance(1, 2) => line("split_off", &[&cur, &s(rng.below(len + 1))]),
+            11 => {
+                // grow bit by bit: only the pushed bits are written, so anything stale above the length becomes visible
+                let room = ty.cap().unwrap_or(usize::MAX) - len.min(ty.cap().unwrap_or(usize::MAX));
+                let k = (1 + rng.below(70)).min(room);
+                line("extend", &[&cur, &bits_token(&gen_bits(rng, k)), ["x", "n"][rng.below(2)]])
+            }
             _ => line(if rng.chance(1, 2) { "pop" } else { "shr_in" }, &[&cur, "1"][..if rng.chance(1, 2) { 1 } else { 2 }]),
         };
         // `pop` takes no bit argument, `shr_in` needs one: normalise
@@ -609,7 +651,7 @@ fn edit_lattice(rng: &mut Rng, recv: &[Ty], args: &[&str], emit: Emit) {
 }
 
 fn gen_c18(rng: &mut Rng, tier: &str, emit: Emit) {
-    edit_lattice(rng, &[ty_of("D"), ty_of("A")], &["F8x3", "F16x5", "F64x2", "F64x3", "F128x2", "D", "A"], emit);
+    edit_lattice(rng, &[ty_of("D"), ty_of("A")], &["F8x3", "F16x5", "F64x2", "F64x5", "F128x2", "D", "A"], emit);
     for ty in [ty_of("D"), ty_of("A")] {
         for c in [0usize, 1, 63, 64, 65, 127, 128, 129, 191, 192, 193, 1000] {
             emit(line("with_capacity", &[ty.tag, &s(c)]));
